@@ -4,6 +4,34 @@ From MT Require Import Tls.TlsTreeModel.
 Import ListNotations.
 Local Open Scope Z_scope.
 
+(** ** [zrange] *)
+Lemma zrange_app a : forall lo b, zrange lo (a + b) = zrange lo a ++ zrange (lo + Z.of_nat a) b.
+Proof.
+  induction a as [|a IH]; intros lo b.
+  - cbn [plus zrange app]. replace (lo + Z.of_nat 0) with lo by lia. reflexivity.
+  - cbn [plus zrange app]. rewrite IH. replace (lo + 1 + Z.of_nat a) with (lo + Z.of_nat (S a)) by lia.
+    reflexivity.
+Qed.
+
+Lemma zrange_in n : forall lo k, In k (zrange lo n) <-> lo <= k < lo + Z.of_nat n.
+Proof.
+  induction n as [|n IH]; intros lo k; cbn [zrange In].
+  - split; [tauto|lia].
+  - rewrite IH. lia.
+Qed.
+
+Lemma zrange_map_seq n : forall lo s, zrange (lo + Z.of_nat s) n = map (fun i => lo + Z.of_nat i) (seq s n).
+Proof.
+  induction n as [|n IH]; intros lo s; cbn [zrange seq map]; [reflexivity|].
+  f_equal. replace (lo + Z.of_nat s + 1) with (lo + Z.of_nat (S s)) by lia. apply IH.
+Qed.
+
+Lemma zrange_nodup n : forall lo, NoDup (zrange lo n).
+Proof.
+  induction n as [|n IH]; intros lo; cbn [zrange]; constructor; [|apply IH].
+  rewrite zrange_in. lia.
+Qed.
+
 (** ** index arithmetic *)
 Lemma cidx_eq idx l : cidx idx l = (idx / 2 ^ (Z.of_nat l * 2 + 4)) mod 4.
 Proof.
